@@ -800,6 +800,18 @@ func codecBlockCase(c *Ctx, b *nom.AccountBlock) {
 		}
 		return hx(data)
 	}))
+	c.Emit("ab-rlp %s | %s", blockStr(b), guard(func() string {
+		data, err := rlp.EncodeToBytes(b)
+		if err != nil {
+			return "err"
+		}
+		return hx(data)
+	}))
+	if data, err := rlp.EncodeToBytes(b); err == nil && len(data) < 6000 {
+		codecRlpTree(c, data, "canonical")
+		v, kind := rlpVariant(c, data)
+		codecRlpTree(c, v, kind)
+	}
 	if data, err := b.Serialize(); err == nil && len(data) < 6000 {
 		codecDecodeBlock(c, data, "canonical")
 		v, kind := wireVariant(c, data)
@@ -851,6 +863,22 @@ func codecMomentumCase(c *Ctx, m *nom.Momentum, blocks []*nom.AccountBlock) {
 		}
 		return hx(data)
 	}))
+	{
+		var sb strings.Builder
+		sb.WriteString(momentumStr(m))
+		fmt.Fprintf(&sb, " %d", len(blocks))
+		for _, b := range blocks {
+			sb.WriteByte(' ')
+			blockTokens(&sb, b)
+		}
+		c.Emit("dm-rlp %s | %s", sb.String(), guard(func() string {
+			data, err := rlp.EncodeToBytes(&nom.DetailedMomentum{Momentum: m, AccountBlocks: blocks})
+			if err != nil {
+				return "err"
+			}
+			return hx(data)
+		}))
+	}
 	if data, err := m.Serialize(); err == nil && len(data) < 6000 {
 		codecDecodeMomentum(c, data, "canonical")
 		v, kind := wireVariant(c, data)
@@ -998,6 +1026,85 @@ func codecDecodeMomentum(c *Ctx, data []byte, kind string) {
 	})
 	c.Emit("mom-depb %s | %s", hx(data), res)
 	c.Hit("mom-depb-" + kind + "-" + strings.SplitN(res, " ", 2)[0])
+}
+
+// ---- generic RLP item trees (canonical form enforced) ---------------------------------------------------------
+
+func rlpTree(data []byte, depth int) (string, []byte, error) {
+	if depth > 64 {
+		return "", nil, fmt.Errorf("too deep")
+	}
+	kind, content, rest, err := rlp.Split(data)
+	if err != nil {
+		return "", nil, err
+	}
+	if kind != rlp.List {
+		return hx(content), rest, nil
+	}
+	var parts []string
+	for len(content) > 0 {
+		var s string
+		s, content, err = rlpTree(content, depth+1)
+		if err != nil {
+			return "", nil, err
+		}
+		parts = append(parts, s)
+	}
+	return "[" + strings.Join(parts, ",") + "]", rest, nil
+}
+
+func codecRlpTree(c *Ctx, data []byte, kind string) {
+	res := guard(func() string {
+		s, rest, err := rlpTree(data, 0)
+		if err != nil || len(rest) != 0 {
+			return "err"
+		}
+		return s
+	})
+	c.Emit("rlp-tree %s | %s", hx(data), res)
+	if res == "err" {
+		c.Hit("rlp-tree-" + kind + "-err")
+	} else {
+		c.Hit("rlp-tree-" + kind + "-ok")
+	}
+}
+
+// non-canonical and damaged forms of an RLP encoding
+func rlpVariant(c *Ctx, data []byte) ([]byte, string) {
+	if len(data) == 0 {
+		return data, "canonical"
+	}
+	switch c.R.Intn(8) {
+	case 0:
+		return data[:c.R.Intn(len(data))], "truncated"
+	case 1:
+		return append(append([]byte{}, data...), byte(c.R.Intn(256))), "trailing-byte"
+	case 2: // a single byte below 0x80 written with a length prefix somewhere
+		return append([]byte{0xc2, 0x81, byte(c.R.Intn(256))}, nil...), "prefixed-single-byte"
+	case 3: // long form for a short string
+		b := cRandBytes(c, c.R.Intn(56))
+		return append([]byte{0xb8, byte(len(b))}, b...), "long-form-short-string"
+	case 4: // leading zero in the length
+		b := cRandBytes(c, 56+c.R.Intn(300))
+		return append([]byte{0xb9, 0x00, byte(len(b))}, b...), "leading-zero-length"
+	case 5: // long list form, correct and with small payload
+		b := bytes.Repeat([]byte{0x01}, c.R.Intn(120))
+		return append([]byte{0xf8, byte(len(b))}, b...), "long-list"
+	case 6: // flip one byte
+		v := append([]byte{}, data...)
+		if len(v) > 400 {
+			v = v[:400] // will mostly fail on length, still a fine case
+		}
+		v[c.R.Intn(len(v))] ^= byte(1 << uint(c.R.Intn(8)))
+		return v, "bit-flip"
+	default: // correct long string
+		b := cRandBytes(c, 56+c.R.Intn(300))
+		hd := []byte{0xb8, byte(len(b))}
+		if len(b) > 255 {
+			hd = []byte{0xb9, byte(len(b) >> 8), byte(len(b))}
+		}
+		return append(hd, b...), "long-string"
+	}
 }
 
 // ---- JSON number / string forms -----------------------------------------------------------------------
